@@ -459,6 +459,11 @@ func vReadRecv(v reflect.Value) vRecv {
 	}
 	if v.Kind() == reflect.Interface {
 		v = v.Elem()
+		if v.IsNil() {
+			// a typed nil pointer inside a non-nil interface (a constructor that
+			// returned nil for an As-provided result)
+			return vRecv{isNil: true}
+		}
 	}
 	return vRecv{ptr: v.Pointer(), tok: v.Elem().Field(0).Int()}
 }
